@@ -63,6 +63,26 @@ theorem next1Loop_nonCS (p acq ws un) : (next1Loop p acq ws un).nonCS := by
 theorem idleLoop_nonCS (p ws acc) : (idleLoop p ws acc).nonCS := by
   cases ws <;> simp [idleLoop, Next.nonCS, inCS]
 
+theorem aliveLoop_nonCS (p ws acc again) : (aliveLoop p ws acc again).nonCS := by
+  cases ws with
+  | cons w rest => simp [aliveLoop, Next.nonCS, inCS]
+  | nil =>
+    cases again with
+    | none => simp [aliveLoop, Next.nonCS]
+    | some ws2 => cases ws2 <;> simp [aliveLoop, Next.nonCS, inCS]
+theorem callLoop_nonCS (p ws) : (callLoop p ws).nonCS := by
+  cases ws <;> simp [callLoop, Next.nonCS, inCS]
+theorem acqCLoop_nonCS (p all ws got) : (acqCLoop p all ws got).nonCS := by
+  cases ws
+  · exact callLoop_nonCS ..
+  · simp [acqCLoop, Next.nonCS, inCS]
+theorem acqWLoop_nonCS (p ws acc) : (acqWLoop p ws acc).nonCS := by
+  cases ws <;> simp [acqWLoop, Next.nonCS, inCS]
+theorem acqCIter_nonCS (p all rest got) : (acqCIter p all rest got).nonCS := by
+  unfold acqCIter; split
+  · exact acqCLoop_nonCS ..
+  · exact callLoop_nonCS ..
+
 theorem resume_nonCS (k : K) (b : Bool) : (resume k b).nonCS := by
   cases k <;> simp only [resume]
   · split
@@ -100,6 +120,17 @@ theorem resume_nonCS (k : K) (b : Bool) : (resume k b).nonCS := by
     · simp [Next.nonCS, inCS]
     · exact idleLoop_nonCS ..
   · exact idleLoop_nonCS ..
+  · exact aliveLoop_nonCS ..
+  · split
+    · simp [Next.nonCS, inCS]
+    · split <;> simp [Next.nonCS, inCS]
+  · split <;> simp [Next.nonCS, inCS]
+  · split
+    · simp [Next.nonCS, inCS]
+    · exact acqCIter_nonCS ..
+  · exact acqCIter_nonCS ..
+  · exact callLoop_nonCS ..
+  · exact acqWLoop_nonCS ..
 
 theorem start_nonCS (pw : Pid → List Wid) (op : Op) : (start pw op).nonCS := by
   cases op <;> simp only [start]
@@ -111,6 +142,11 @@ theorem start_nonCS (pw : Pid → List Wid) (op : Op) : (start pw op).nonCS := b
   · exact relAllLoop_nonCS ..
   · exact idleLoop_nonCS ..
   · simp [Next.nonCS, inCS]
+  · exact aliveLoop_nonCS ..
+  · split <;> simp [Next.nonCS, inCS]
+  · exact acqCLoop_nonCS ..
+  · simp [Next.nonCS, inCS]
+  · exact acqWLoop_nonCS ..
 
 theorem apply_cur_nonCS (th : Thread) (n : Next) (hn : n.nonCS) :
     ∀ cl k, (th.apply n).cur = some (cl, k) → inCS cl.pc = false := by
